@@ -462,7 +462,7 @@ def wide_library(rows=None, class_=True, defaults=False, **opts):
 
 STR_ROWS = {"cstr_in", "str_cref", "str_ref_inout", "str_ref_out"}
 STR_RESULTS = {"cstr", "str_cref"}
-VEC_BUF_ROWS = {"vec_in", "vec_inout", "vec_out_alloc"}
+VEC_BUF_ROWS = {"vec_in", "vec_inout", "vec_out_alloc", "vec_inout_alloc"}
 CDESC_RESULTS = {"iptr3"}
 
 
@@ -493,3 +493,21 @@ def without_cfi_conflict(lib):
         keep.append(f)
         remap[i] = len(keep)
     return dict(lib, funcs=keep)
+
+
+def solo_libraries(rows=None, **opts):
+    """One library per parameter row and per result row with nothing else in it: a helper, include or module that a
+    statement forgets to request is not supplied by some other function of the library."""
+    sets = cfg_sets()
+    base = wide_library(**opts)
+    out = []
+    single = sorted(sets["ParamRows"] - {"arr_in", "arr_n", "arr_out", "out_n"})
+    plists = [[r] for r in single] + [["arr_in", "arr_n"], ["arr_out", "out_n"]]
+    for ps in plists:
+        if rows is not None and not all(p in rows for p in ps):
+            continue
+        out.append(dict(base, funcs=[{"kind": "plain", "result": "void" if ps[0] in ("vec_inout_alloc",) else "int", "params": ps, "ndef": 0}],
+                        **{"class": False}))
+    for r in sorted(sets["ResultRows"]):
+        out.append(dict(base, funcs=[{"kind": "plain", "result": r, "params": ["int_v"], "ndef": 0}], **{"class": False}))
+    return [json.loads(json.dumps(l)) for l in out]
